@@ -344,6 +344,7 @@ fn run_c08(t: &mut Tape, _tier: Tier) -> RunOut {
                 }
                 let (m, _, _, _) = crate::direct::known_fixture();
                 planned.push(Planned {
+                    origin: None,
                     msg: m,
                     node_ix: i,
                     now_ns: now,
@@ -525,7 +526,9 @@ fn judge_c17(cx: &DeliveryCtx, out: &mut RunOut) {
     // the correct signature of a refused request
     if !cx.out.is_ok() {
         if let (Some(exp), Some(pres)) = (&cx.detail.expected_signature, &cx.detail.presented_signature) {
-            if exp != pres && !exp.eq_ignore_ascii_case(pres) {
+            // (a presented string that already contains the correct signature — e.g. the correct one
+            // with a character appended — gives nothing away when it is echoed)
+            if exp != pres && !pres.to_ascii_lowercase().contains(&exp.to_ascii_lowercase()) {
                 needles.push(Needle {
                     what: "the correct signature of a refused request".into(),
                     bytes: exp.clone().into_bytes(),
@@ -656,7 +659,7 @@ fn run_c17(t: &mut Tape, _tier: Tier) -> RunOut {
         return out;
     }
     let mut mix = Mix::base();
-    mix.logical_kinds = vec!["sig-digit", "sig-random", "sig-wrong-key", "cred-region", "cred-date", "cred-access-key", "hdr-change-value", "body-flip", "query-add", "date-shift", "splice"];
+    mix.logical_kinds = vec!["sig-digit", "sig-length", "sig-random", "sig-wrong-key", "cred-region", "cred-date", "cred-access-key", "hdr-change-value", "body-flip", "query-add", "date-shift", "splice"];
     mix.max_logical = 2;
     mix.logical_p10 = 6;
     mix.defect_kinds = faults::DEFECT_KINDS.to_vec();
@@ -724,6 +727,7 @@ pub fn c18_corpus(t: &mut Tape) -> (Vec<Account>, Vec<CorpusItem>) {
         let off = gen::gen_offset(t, i % 3 == 0);
         let now_ns = m.auth.instant_ns - off;
         let wire = render(&m, t, &RenderOpts {
+                mask: crate::world::NOISE_ALL,
             noise: 2,
             s3: node.cfg.s3,
             permute_pairs: true,
@@ -1086,6 +1090,8 @@ fn run_c19(t: &mut Tape, _tier: Tier) -> RunOut {
     mix.req.max_headers = 2;
     mix.req.forms = false;
     mix.prov_pending = 0;
+    mix.sign.date_noise = 0;
+    mix.baseline = true;
     let node = gen::gen_node(t, &mix.node);
     let nmsg = 1 + t.below(3);
     let mut planned: Vec<Planned> = Vec::new();
@@ -1097,6 +1103,9 @@ fn run_c19(t: &mut Tape, _tier: Tier) -> RunOut {
         let l = gen::gen_logical(t, &node, &mix.req);
         let s = gen::sign_message(t, l, &node, &acct, ai, 0, t_req, &mix.sign);
         let mut m = s.msg;
+        // the same request without the duplicate is the baseline that isolates the selection rules
+        let mut origin = m.clone();
+        origin.home_node = 0;
         let before = t.chance(2);
         let header = m.auth.carrier == Carrier::Header;
         // which duplicated input; `accept` = the valid one sits where the documented rule selects
@@ -1185,6 +1194,7 @@ fn run_c19(t: &mut Tape, _tier: Tier) -> RunOut {
             }
             "both-carriers" => {
                 m.quirks.other_carrier = true;
+                m.quirks.other_carrier_alg = [None, Some("AWS4-ECDSA-P256-SHA256".to_string()), Some(String::new()), Some("aws4-hmac-sha256".to_string())][t.below(4)].clone();
                 accept = Some(false);
                 resign = false;
             }
@@ -1224,11 +1234,13 @@ fn run_c19(t: &mut Tape, _tier: Tier) -> RunOut {
         });
         let now_ns = m.auth.instant_ns - gen::gen_offset(t, false) / 4;
         let wire = render(&m, t, &RenderOpts {
+                mask: crate::world::NOISE_ALL,
             noise: 1,
             s3: node.cfg.s3,
             permute_pairs: false,
         });
         planned.push(Planned {
+            origin: Some(origin),
             msg: m,
             node_ix: 0,
             now_ns,
@@ -1260,7 +1272,18 @@ fn run_c19(t: &mut Tape, _tier: Tier) -> RunOut {
         } else {
             out.probe("dup_refused");
         }
-        judge_agreement(cx, out, "C19", "fixed-selection-rule");
+        // Jurisdiction: the same request without the duplicate is accepted (baseline), so whether the
+        // duplicated request is accepted is decided by the selection rules alone.
+        let base_ok = cx.baseline.map(|b| b.is_ok()).unwrap_or(true);
+        if !base_ok {
+            out.probe("baseline_refused_delivery_not_judged");
+            return;
+        }
+        match (cx.expected, cx.out) {
+            (Verdict::Accept, ValOut::Err(_)) | (Verdict::Accept, ValOut::Panicked(_)) => out.violate("C19", "fixed-selection-rule", format!("{}: the valid input sits where the documented rule selects, yet the library says {}; {}", note, cx.out.short(), cx.wire.describe())),
+            (Verdict::Refuse(r), ValOut::Ok(_)) => out.violate("C19", "fixed-selection-rule", format!("{}: the documented rule selects the other input (reference refuses at {}), yet the library accepts; {}", note, r.name(), cx.wire.describe())),
+            _ => {}
+        }
         if note.starts_with("both-carriers") {
             match cx.out.err() {
                 Some(e) if e.kind == "SignatureDoesNotMatch" && e.status == 403 => out.probe("both_carriers_refused"),
@@ -1286,8 +1309,308 @@ fn run_c19(t: &mut Tape, _tier: Tier) -> RunOut {
     out
 }
 
+// ------------------------------------------------------------------------------------------------
+// C13: precedence by defect twins, taxonomy over every error
+// ------------------------------------------------------------------------------------------------
+
+#[derive(Clone, Debug)]
+struct Atom {
+    name: &'static str,
+    rule: Rule,
+    variant: u64,
+}
+
+const C13_ATOMS: [(&str, Rule); 27] = [
+    ("bad-path-escape", Rule::Path),
+    ("path-climb", Rule::Path),
+    ("bad-query-escape", Rule::Query),
+    ("strip-carrier", Rule::NoCarrier),
+    ("both-carriers", Rule::BothCarriers),
+    ("bad-algorithm", Rule::HdrAlgorithm),
+    ("bad-algorithm-case", Rule::HdrAlgorithm),
+    ("no-eq-param", Rule::HdrKeyValue),
+    ("missing-credential", Rule::HdrMissing),
+    ("missing-signature", Rule::HdrMissing),
+    ("missing-signedheaders", Rule::HdrMissing),
+    ("missing-date", Rule::HdrMissing),
+    ("inject-required-header", Rule::Requirement),
+    ("unsign-required", Rule::Requirement),
+    ("unsign-host", Rule::Requirement),
+    ("bad-date", Rule::DateFormat),
+    ("clock-expired", Rule::Expired),
+    ("clock-future", Rule::NotYetValid),
+    ("arity", Rule::Arity),
+    ("cred-region", Rule::Scope),
+    ("cred-service", Rule::Scope),
+    ("cred-term", Rule::Scope),
+    ("cred-date", Rule::Scope),
+    ("prov-error", Rule::Provider),
+    ("cred-access-key", Rule::Provider),
+    ("sig-digit", Rule::Signature),
+    ("sig-length", Rule::Signature),
+];
+
+struct Built {
+    wire: Wire,
+    now_ns: i128,
+    script: ProvScript,
+    applied: Vec<(&'static str, Rule)>,
+}
+
+/// Apply `atoms` (each with its own forked choice stream, so an atom does the same thing in the
+/// combined request and in its twin) to a copy of `m0` and render it.
+fn c13_build(m0: &Message, atoms: &[Atom], accounts: &[Account], node: &Node, val: usize) -> Built {
+    let mut m = m0.clone();
+    let mut now_ns = m0.auth.instant_ns;
+    let mut script = ProvScript::default();
+    let mut applied = Vec::new();
+    for a in atoms {
+        let mut lt = Tape::from_seed(a.variant);
+        let cx = faults::FaultCtx {
+            accounts,
+            node,
+            others: &[],
+        };
+        let ok = match a.name {
+            "clock-expired" => {
+                now_ns = m0.auth.instant_ns + refm::WINDOW_NS + 1 + lt.draw(3_600_000_000_000) as i128;
+                true
+            }
+            "clock-future" => {
+                now_ns = m0.auth.instant_ns - refm::WINDOW_NS - 1 - lt.draw(3_600_000_000_000) as i128;
+                true
+            }
+            "prov-error" => {
+                script.answer = if lt.chance(3) {
+                    Answer::Foreign(lt.below(libi::FOREIGN_KINDS.len()))
+                } else {
+                    Answer::SigErr(lt.below(libi::SIG_ERR_KINDS.len()))
+                };
+                true
+            }
+            "cred-region" | "cred-service" | "cred-term" | "cred-date" | "cred-access-key" | "sig-digit" | "sig-length" => faults::apply_logical(a.name, &mut m, &cx, &mut lt).is_some(),
+            other => faults::apply_defect(other, &mut m, &cx, &mut lt).is_some(),
+        };
+        if ok {
+            applied.push((a.name, a.rule));
+        }
+    }
+    let _ = val;
+    let mut rt = Tape::replay(vec![]);
+    let wire = render(&m, &mut rt, &RenderOpts {
+        mask: NOISE_ALL,
+        noise: 0,
+        s3: node.cfg.s3,
+        permute_pairs: false,
+    });
+    Built {
+        wire,
+        now_ns,
+        script,
+        applied,
+    }
+}
+
+fn run_c13(t: &mut Tape, _tier: Tier) -> RunOut {
+    let mut out = RunOut::default();
+    out.log_hash = FNV0;
+    let accounts = gen::gen_accounts(t, 2);
+    let mut mix = Mix::base();
+    mix.req.big_body_one_in = 0;
+    mix.req.max_pairs = 3;
+    mix.req.max_segs = 3;
+    mix.req.max_headers = 3;
+    mix.sign.date_noise = 2;
+    let node = gen::gen_node(t, &mix.node);
+    let epoch = gen::gen_epoch(t);
+    let nmsg = 1 + t.below(3);
+    let shared_level = t.below(5) as u8;
+    for mi in 0..nmsg {
+        let ai = t.below(accounts.len());
+        let l = gen::gen_logical(t, &node, &mix.req);
+        let s = gen::sign_message(t, l, &node, &accounts[ai], ai, 0, epoch + mi as i128 * 11 * refm::NS, &mix.sign);
+        let mut m0 = s.msg;
+        m0.origin_fp = faults::fingerprint(&m0, &accounts);
+        // 1-4 distinct atoms
+        let k = 1 + t.below(4);
+        let mut atoms: Vec<Atom> = Vec::new();
+        for _ in 0..k {
+            let (name, rule) = C13_ATOMS[t.below(C13_ATOMS.len())];
+            if atoms.iter().any(|a| a.name == name) {
+                continue;
+            }
+            // atoms that rewrite the same authentication input would mask each other
+            let clash = |a: &Atom| (a.name.starts_with("clock") && name.starts_with("clock")) || (a.name.starts_with("sig-") && name.starts_with("sig-")) || (a.name.starts_with("bad-algorithm") && name.starts_with("bad-algorithm"));
+            if atoms.iter().any(clash) {
+                continue;
+            }
+            // one defect per documented rule: two defects of the same rank have no defined order
+            if atoms.iter().any(|a| a.rule.precedence() == rule.precedence()) {
+                continue;
+            }
+            atoms.push(Atom {
+                name,
+                rule,
+                variant: t.u64(),
+            });
+        }
+        let d = c13_build(&m0, &atoms, &accounts, &node, 0);
+        if d.applied.is_empty() {
+            continue;
+        }
+        // the earliest rule among the defects that actually applied
+        let (min_name, min_rule) = *d.applied.iter().min_by_key(|(_, r)| r.precedence()).unwrap();
+        let twin_atoms: Vec<Atom> = atoms.iter().filter(|a| a.name == min_name).cloned().collect();
+        let tw = c13_build(&m0, &twin_atoms, &accounts, &node, 1);
+        let eval = |b: &Built, out: &mut RunOut| -> Option<(Verdict, ValOut, Vec<libi::Event>)> {
+            let req = b.wire.to_request().ok()?;
+            let mut rp = libi::reference_provider(&accounts, &b.script.answer);
+            let (v, _) = refm::rverdict(&req, &node.cfg, b.now_ns, &mut rp);
+            drop(rp);
+            let shared = Arc::new(Mutex::new(libi::Shared::new(accounts.clone(), shared_level)));
+            shared.lock().unwrap().scripts.push(b.script.clone());
+            let mut tt = Tape::replay(vec![]);
+            let rep = libi::run_tasks(
+                &shared,
+                vec![vec![libi::Job {
+                    req,
+                    node: node.clone(),
+                    now_ns: b.now_ns,
+                    val: 0,
+                }]],
+                libi::ExecPolicy {
+                    spurious_one_in: 0,
+                    cancel_one_in: 0,
+                    step_cap: 200,
+                },
+                &mut tt,
+            );
+            out.deliveries += 1;
+            let ev = std::mem::take(&mut shared.lock().unwrap().events);
+            for (_, msg) in &rep.panics {
+                out.violate("C08", "no-panic", format!("validation panicked: {}", msg));
+            }
+            Some((v, rep.outs.into_iter().next().unwrap(), ev))
+        };
+        let (dv, dout, dev) = match eval(&d, &mut out) {
+            Some(x) => x,
+            None => {
+                out.probe("wire_rejected_by_http");
+                continue;
+            }
+        };
+        let (tv, tout, tev) = match eval(&tw, &mut out) {
+            Some(x) => x,
+            None => continue,
+        };
+        out.note(format!("msg{}: defects {:?}; earliest = {} ({})", mi, d.applied.iter().map(|(n, r)| format!("{}→{}", n, r.name())).collect::<Vec<_>>(), min_name, min_rule.name()));
+        out.note(format!("  combined: {} → reference {:?}, library {}", libi::truncate(&d.wire.describe(), 500), dv, dout.short()));
+        out.note(format!("  twin    : {} → reference {:?}, library {}", libi::truncate(&tw.wire.describe(), 500), tv, tout.short()));
+        for (n, _) in &d.applied {
+            out.fault(&format!("defect_{}", n));
+        }
+        if d.applied.len() > 1 {
+            out.probe(&format!("multi_defect[{}]", d.applied.len()));
+            let mut rules: Vec<&'static str> = d.applied.iter().map(|(_, r)| r.name()).collect();
+            rules.sort();
+            rules.dedup();
+            if rules.len() >= 2 {
+                out.probe(&format!("defect_pair[{}+{}]", rules[0], rules[1]));
+            }
+        }
+        // ---- taxonomy: every failure is a SignatureError whose kind fixes code and status
+        for (o, ev, b) in [(&dout, &dev, &d), (&tout, &tev, &tw)] {
+            if let Some(e) = o.err() {
+                out.probe("error_taxonomy_checked");
+                if e.kind == "foreign" {
+                    out.violate("C13", "every-failure-is-a-signature-error", format!("non-SignatureError failure: {}; {}", o.short(), b.wire.describe()));
+                } else {
+                    match libi::taxonomy(e.kind) {
+                        Some((code, status)) => {
+                            if e.code != code || e.status != status {
+                                out.violate("C13", "kind-fixes-code-and-status", format!("{} came with code {} status {} (documented: {} {}); {}", e.kind, e.code, e.status, code, status, b.wire.describe()));
+                            }
+                        }
+                        None => out.violate("C13", "kind-fixes-code-and-status", format!("unknown error kind {}; {}", e.kind, b.wire.describe())),
+                    }
+                    if ![400, 403, 500].contains(&e.status) {
+                        out.violate("C13", "status-is-400-403-500", format!("status {} for {}; {}", e.status, e.kind, b.wire.describe()));
+                    }
+                    if e.status == 500 {
+                        let infra = ev.iter().any(|x| matches!(x.kind, EvKind::FutPoll { result: "err" } | EvKind::PollReady { result: "err" }));
+                        if !infra {
+                            out.violate("C13", "500-only-for-provider-failure", format!("500 without a provider failure: {}; {}", o.short(), b.wire.describe()));
+                        }
+                    }
+                }
+            } else if o.is_ok() {
+                // a request carrying a defect was accepted: never a success status for a failure
+                out.probe("defective_request_accepted");
+            }
+        }
+        // ---- precedence: adding later-ranked defects must not change what is reported
+        // (the reference must agree that the earliest defect decides both; otherwise the defects
+        // interact and the delivery is left unasserted)
+        // (rules are compared by documented rank: the header and query carriers have their own names
+        // for the algorithm and missing-parameter rules)
+        let agree = matches!((&dv, &tv), (Verdict::Refuse(a), Verdict::Refuse(b)) if a == b && a.precedence() == min_rule.precedence());
+        if !agree {
+            out.probe("defects_interact_unasserted");
+            continue;
+        }
+        if let Verdict::Refuse(r) = &dv {
+            out.probe(&format!("rule_reported[{}]", r.name()));
+        }
+        if d.applied.len() < 2 {
+            continue;
+        }
+        let sig = |o: &ValOut| match o {
+            ValOut::Err(e) => format!("{} {} {:?}", e.kind, e.status, libi::classify(e).iter().map(|r| r.name()).collect::<Vec<_>>()),
+            other => other.short(),
+        };
+        let unclassified = |o: &ValOut| o.err().map(|e| libi::classify(e).is_empty()).unwrap_or(false);
+        if unclassified(&dout) || unclassified(&tout) {
+            out.probe("error_message_unclassified");
+            if dout.err().map(|e| e.kind) == tout.err().map(|e| e.kind) {
+                continue;
+            }
+        }
+        out.probe("precedence_twin_compared");
+        if sig(&dout) != sig(&tout) {
+            out.violate(
+                "C13",
+                "earliest-failing-check-reported",
+                format!(
+                    "defects {:?}: with only the earliest one ({}, {}) the library reports {}; with the later-ranked ones added it reports {}; combined request: {}",
+                    d.applied.iter().map(|(n, r)| format!("{}@{}", n, r.name())).collect::<Vec<_>>(),
+                    min_name,
+                    min_rule.name(),
+                    tout.short(),
+                    dout.short(),
+                    d.wire.describe()
+                ),
+            );
+        }
+        out.shape = fnv(out.shape, format!("{:?}|{}", d.applied.iter().map(|(n, _)| *n).collect::<Vec<_>>(), sig(&dout)).as_bytes());
+    }
+    out
+}
+
 pub fn registry() -> Vec<Profile> {
     vec![
+        Profile {
+            id: "C13",
+            title: "precedence and taxonomy",
+            run: run_c13,
+            required: &["multi_defect[2]", "multi_defect[3]", "precedence_twin_compared", "error_taxonomy_checked", "rule_reported[r01-path]", "rule_reported[r04-query]", "rule_reported[r05-both-carriers]", "rule_reported[r05-no-carrier]", "rule_reported[r06a-algorithm]", "rule_reported[r06b-key-value]", "rule_reported[r06d-missing]", "rule_reported[r07a-algorithm]", "rule_reported[r07d-missing]", "rule_reported[r08-requirement]", "rule_reported[r09-date-format]", "rule_reported[r10-expired]", "rule_reported[r11-not-yet-valid]", "rule_reported[r12-arity]", "rule_reported[r13-scope]", "rule_reported[r14-provider]", "rule_reported[r15-signature]"],
+            rule: "fault combinations: one signed request receives 1-4 defects ('atoms') from different rules and seams — network (bad path/query escape, carrier missing/both, algorithm, key=value, missing parameters, requirement injection/under-signing, date text), clock (expired / not yet valid), scope (arity, region, service, terminator, date), provider (every error kind, unknown key) and signature — on either carrier. Precedence is judged by *twins*: the same request with only the earliest-ranked defect must be reported exactly like the request with the later-ranked defects added (kind, status, message class); the reference model only certifies which defect is earliest and that the defects do not interact. Every error observed is checked against the documented kind → code/status table. Non-trivial when at least one defect applied; distinct by (defect set, reported class).",
+            quick_secs: 25,
+            thorough_secs: 300,
+            real: REAL_COMMON,
+            stubs: STUBS_COMMON,
+            assumptions: ASSUME_COMMON,
+            sweep: None,
+        },
         Profile {
             id: "C08",
             title: "totality",
